@@ -1,6 +1,7 @@
 import CwPlus.Props.C07
 import CwPlus.Props.C17
 import CwPlus.Lemmas.NativeBalanceSub
+import CwPlus.Lemmas.Paginate
 /-!
 # C08 — cw1-subkeys: a subkey never spends beyond its unexpired native allowance
 
@@ -1087,6 +1088,237 @@ theorem decrease_exact {s s' : Cw1Subkeys.State} {blk : Block} {snd : Addr} {sp 
     · exact hne
     · obtain ⟨msgs, hm⟩ := C07.Sk.only_execute_relays h hne; cases hm
 
+/-! ## Ledgers from arbitrary start states, and the exact ledger -/
+
+/-- Well-formedness is kept by every history from *any* well-formed state (`wf_run` is the instance "from
+instantiation"): this covers migrated / legacy stores that are not outputs of `instantiate`. -/
+theorem wf_run_from {s : Cw1Subkeys.State} (hw : WF s) (ops : List (Block × Addr × Cw1Subkeys.Msg)) :
+    WF (C17.Sk.run s ops) := by
+  induction ops generalizing s with
+  | nil => exact hw
+  | cons op rest ih => exact ih (step_wf hw op.1 op.2.1 op.2.2)
+
+/-- The ledger invariant is kept by every history from any ghost state that satisfies it. -/
+theorem grun_inv {g : Ghost} (hi : GInv g) (ops : List (Block × Addr × Cw1Subkeys.Msg)) : GInv (grun g ops) := by
+  induction ops generalizing g with
+  | nil => exact hi
+  | cons op rest ih => exact ih (gstep_inv hi op)
+
+/-- Ledgers opened on an arbitrary state: what a subkey holds at that moment counts as granted, nothing as spent. -/
+def ghostOf (s : Cw1Subkeys.State) : Ghost := ⟨s, fun x d => held s x d, fun _ _ => 0⟩
+
+/-- C08, the cumulative bound relative to **any** start state (not only `instantiate` outputs — e.g. a migrated
+store): over every history, what a subkey has relayed since plus what it still holds never exceeds what it held at
+the start plus what admins granted it since. -/
+theorem ledger_relative (s : Cw1Subkeys.State) (ops : List (Block × Addr × Cw1Subkeys.Msg)) :
+    GInv (grun (ghostOf s) ops) :=
+  grun_inv (fun x d => by simp [ghostOf]) ops
+
+/-- C08: the headline bound from any start state. -/
+theorem spent_le_granted_relative (s : Cw1Subkeys.State) (ops : List (Block × Addr × Cw1Subkeys.Msg)) (x : Addr) (d : String) :
+    (grun (ghostOf s) ops).spent x d ≤ (grun (ghostOf s) ops).granted x d := by
+  have := ledger_relative s ops x d; omega
+
+/-- Is the stored allowance expired at `blk` (`false` without one)? -/
+def expiredAt (blk : Block) (al : Option Allowance) : Bool :=
+  match al with
+  | some a => a.expires.isExpired blk
+  | none => false
+
+theorem total_liveBal (blk : Block) (al : Option Allowance) (d : String) :
+    total (liveBal blk al) d = if expiredAt blk al = true then 0 else total (balOf al) d := by
+  cases al with
+  | none => simp [liveBal, expiredAt, balOf]
+  | some a => by_cases hx : a.expires.isExpired blk = true <;> simp [liveBal, expiredAt, balOf, hx]
+
+/-- State plus four ghost ledgers: the two of `Ghost` and the two that account for allowance that disappears
+without being spent. -/
+structure Ledger where
+  st : Cw1Subkeys.State
+  /-- Σ of the amounts of all successful `IncreaseAllowance` calls for (subkey, denom) -/
+  granted : Addr → String → Nat
+  /-- Σ of the amounts of denom relayed by the subkey's own successful non-admin `Execute` calls -/
+  spent : Addr → String → Nat
+  /-- Σ over successful `DecreaseAllowance` calls of what they took away (held before − held after) -/
+  revoked : Addr → String → Nat
+  /-- Σ over successful `IncreaseAllowance` calls on an *expired* allowance of the remainder they discarded -/
+  forfeited : Addr → String → Nat
+
+/-- One transaction with the four-column bookkeeping (a failed call changes nothing). -/
+def lstep (l : Ledger) (op : Block × Addr × Cw1Subkeys.Msg) : Ledger :=
+  match Cw1Subkeys.execute l.st op.1 op.2.1 op.2.2 with
+  | .error _ => l
+  | .ok (s', _) =>
+    match op.2.2 with
+    | .increaseAllowance sp c _ =>
+      { l with st := s',
+               granted := fun x d => l.granted x d + (if x = sp.text ∧ c.1 = d then c.2 else 0),
+               forfeited := fun x d => l.forfeited x d +
+                 (if x = sp.text ∧ expiredAt op.1 (l.st.allowances.get? x) = true then held l.st x d else 0) }
+    | .decreaseAllowance sp _ _ =>
+      { l with st := s',
+               revoked := fun x d => l.revoked x d + (if x = sp.text then held l.st x d - held s' x d else 0) }
+    | .execute msgs =>
+      if l.st.cfg.isAdmin op.2.1 then { l with st := s' }
+      else { l with st := s', spent := fun x d => l.spent x d + (if x = op.2.1 then sent msgs d else 0) }
+    | _ => { l with st := s' }
+
+def lrun (l : Ledger) (ops : List (Block × Addr × Cw1Subkeys.Msg)) : Ledger := ops.foldl lstep l
+
+/-- Forgetting the two extra columns. -/
+def Ledger.ghost (l : Ledger) : Ghost := ⟨l.st, l.granted, l.spent⟩
+
+/-- The four-column ledger extends the two-column one: state, `granted` and `spent` are those of `gstep`. -/
+theorem lstep_ghost (l : Ledger) (op : Block × Addr × Cw1Subkeys.Msg) : (lstep l op).ghost = gstep l.ghost op := by
+  obtain ⟨blk, snd, m⟩ := op
+  simp only [lstep, gstep, Ledger.ghost]
+  cases he : Cw1Subkeys.execute l.st blk snd m with
+  | error e => rfl
+  | ok r =>
+    obtain ⟨s', out⟩ := r
+    cases m <;> simp only [] <;> try rfl
+    by_cases ha : l.st.cfg.isAdmin snd = true <;> simp [ha]
+
+theorem lrun_ghost (l : Ledger) (ops : List (Block × Addr × Cw1Subkeys.Msg)) : (lrun l ops).ghost = grun l.ghost ops := by
+  induction ops generalizing l with
+  | nil => rfl
+  | cons op rest ih =>
+    simp only [lrun, grun, List.foldl_cons]
+    have := ih (lstep l op)
+    simp only [lrun, grun] at this
+    rw [this, lstep_ghost]
+
+theorem lrun_st (l : Ledger) (ops : List (Block × Addr × Cw1Subkeys.Msg)) : (lrun l ops).st = C17.Sk.run l.st ops := by
+  have h1 : (lrun l ops).st = (lrun l ops).ghost.st := rfl
+  rw [h1, lrun_ghost, grun_st]; rfl
+
+/-- Exact ledger invariant: for every subkey and denomination, what was granted is accounted for completely — it
+was relayed, or is still held, or was taken back by a `DecreaseAllowance`, or was discarded when an expired allowance
+was restarted by an `IncreaseAllowance`. -/
+def LInv (l : Ledger) : Prop :=
+  ∀ x d, l.spent x d + held l.st x d + l.revoked x d + l.forfeited x d = l.granted x d
+
+theorem lstep_inv {l : Ledger} (hi : LInv l) (op : Block × Addr × Cw1Subkeys.Msg) : LInv (lstep l op) := by
+  obtain ⟨blk, snd, m⟩ := op
+  unfold lstep
+  simp only
+  split
+  · exact hi
+  · rename_i s' out he
+    have hc := C17.Sk.execute_cases he
+    intro x d
+    have hxd := hi x d
+    cases m with
+    | execute msgs =>
+      simp only at hc ⊢
+      cases ha : l.st.cfg.isAdmin snd
+      · simp only [Bool.false_eq_true, if_false]
+        by_cases hx : x = snd
+        · subst hx
+          have := spend_exact ha he d
+          simp only [if_true]; omega
+        · have : held s' x d = held l.st x d := by simp only [held, bal]; rw [hc.2.2.1 x hx]
+          simp only [hx, if_false]; omega
+      · simp only [if_true]
+        rw [hc.2.2.2 ha]; exact hxd
+    | freeze => simp at hc; obtain ⟨_, _, rfl⟩ := hc; exact hxd
+    | updateAdmins a => simp at hc; obtain ⟨_, _, a, _, rfl⟩ := hc; exact hxd
+    | increaseAllowance sp c e =>
+      simp at hc
+      obtain ⟨_, _, _, a, hinc, rfl⟩ := hc
+      simp only
+      by_cases hx : sp.text = x
+      · subst hx
+        rw [held_set_eq, incFn_total hinc d, total_liveBal]
+        simp only [held, bal] at hxd ⊢
+        by_cases hexp : expiredAt blk (l.st.allowances.get? sp.text) = true <;>
+          by_cases hd : c.1 = d <;> simp [hexp, hd] <;> omega
+      · rw [held_set_ne _ _ _ _ _ hx]
+        have h1 : ¬ (x = sp.text ∧ c.1 = d) := fun h => hx h.1.symm
+        have h2 : ¬ (x = sp.text ∧ expiredAt blk (l.st.allowances.get? x) = true) := fun h => hx h.1.symm
+        simp only [h1, h2, if_false]; omega
+    | decreaseAllowance sp c e =>
+      have hds := decrease_saturates he d
+      simp at hc
+      obtain ⟨_, _, _, a, _, hs'⟩ := hc
+      simp only
+      by_cases hx : sp.text = x
+      · subst hx; simp only [if_true]; omega
+      · have : held s' x d = held l.st x d := by
+          rw [hs']
+          simp only [held, bal]
+          split <;> simp [AMap.get?_set_ne _ _ _ _ hx, AMap.get?_erase_ne _ _ _ hx]
+        have h1 : ¬ x = sp.text := fun h => hx h.symm
+        simp only [h1, if_false]; omega
+    | setPermissions sp p => simp at hc; obtain ⟨_, _, _, rfl⟩ := hc; exact hxd
+
+theorem lrun_inv {l : Ledger} (hi : LInv l) (ops : List (Block × Addr × Cw1Subkeys.Msg)) : LInv (lrun l ops) := by
+  induction ops generalizing l with
+  | nil => exact hi
+  | cons op rest ih => exact ih (lstep_inv hi op)
+
+/-- Four-column ledgers opened on an arbitrary state: current holdings count as granted. -/
+def ledgerOf (s : Cw1Subkeys.State) : Ledger := ⟨s, fun x d => held s x d, fun _ _ => 0, fun _ _ => 0, fun _ _ => 0⟩
+
+/-- C08, "exactly … across calls": on every history from **any** state — any interleaving of Increase / Decrease
+(any denom, amount, expiry), Execute calls with any number of bank sends, admin changes and block advances across
+expiries — for every subkey and denomination
+
+  `spent + still held + revoked by Decrease + forfeited at a restart after expiry = held at the start + granted since`.
+
+So the amount relayed is *exactly* what was granted minus what is left, minus what admins took back, minus what
+expired unused and was then overwritten. -/
+theorem ledger_exact_relative (s : Cw1Subkeys.State) (ops : List (Block × Addr × Cw1Subkeys.Msg)) :
+    LInv (lrun (ledgerOf s) ops) :=
+  lrun_inv (fun x d => by simp [ledgerOf]) ops
+
+/-- C08, the exact ledger from instantiation (all columns start at zero). -/
+theorem ledger_exact {m0 : Cw1Subkeys.InstMsg} {s0 : Cw1Subkeys.State} (h0 : Cw1Subkeys.instantiate m0 = .ok s0)
+    (ops : List (Block × Addr × Cw1Subkeys.Msg)) :
+    LInv (lrun ⟨s0, fun _ _ => 0, fun _ _ => 0, fun _ _ => 0, fun _ _ => 0⟩ ops) := by
+  apply lrun_inv
+  simp [Cw1Subkeys.instantiate] at h0
+  obtain ⟨c, _, rfl⟩ := h0
+  intro x d
+  simp [held, bal, balOf]
+
+/-- The exact ledger and the bound of `ledger_invariant` talk about the same `granted` / `spent` columns and the
+same states. -/
+theorem ledger_exact_columns {s0 : Cw1Subkeys.State} (ops : List (Block × Addr × Cw1Subkeys.Msg)) :
+    (lrun ⟨s0, fun _ _ => 0, fun _ _ => 0, fun _ _ => 0, fun _ _ => 0⟩ ops).ghost = grun (ghost0 s0) ops :=
+  lrun_ghost _ ops
+
+/-- C08: what a successful `DecreaseAllowance{spender, (d, amt)}` takes away on a well-formed state is
+`min amt held` of `d` and nothing of any other denomination — so `revoked` is the Σ of those minima. -/
+theorem decrease_revokes_exact {s s' : Cw1Subkeys.State} {blk : Block} {snd : Addr} {sp : AddrArg} {c : Coin}
+    {e : Option Expiration} {out : List CosmosMsg} (hw : WF s)
+    (h : Cw1Subkeys.execute s blk snd (.decreaseAllowance sp c e) = .ok (s', out)) (d : String) :
+    held s sp.text d - held s' sp.text d = if c.1 = d then min c.2 (held s sp.text d) else 0 := by
+  have h1 := decrease_saturates h d
+  by_cases hd : c.1 = d
+  · subst hd
+    have h2 := decrease_saturates_exact hw h
+    simp only [if_true]; omega
+  · simp only [hd, if_false] at h1 ⊢; omega
+
+/-! ## The listing hides expired allowances -/
+
+/-- C08, "queries hide expired allowances", listing side: every entry the paged `AllAllowances` query returns —
+for any cursor and limit — is a stored allowance that is unexpired at the block of the query.  (That no unexpired
+entry is *missing* from the pages is `C20Listings.subkeys_allAllowances_complete`.) -/
+theorem listing_hides_expired (s : Cw1Subkeys.State) (blk : Block) (after : Option String) (limit : Option Nat) :
+    ∀ p ∈ Cw1Subkeys.queryAllAllowances s blk after limit, p ∈ s.allowances ∧ p.2.expires.isExpired blk = false := by
+  intro p hp
+  have := (Paginate.page_sublist _ _ after limit).subset hp
+  simpa [List.mem_filter, Paginate.mem_sortedEntries] using this
+
+/-- The point query on an expired allowance answers the empty default (the non-definitional reading of
+`queries_hide_expired`): it shows no coin and `Never`. -/
+theorem query_expired_is_default {s : Cw1Subkeys.State} {blk : Block} {x : Addr} {a : Allowance}
+    (ha : s.allowances.get? x = some a) (hx : a.expires.isExpired blk = true) :
+    Cw1Subkeys.queryAllowance s blk ⟨true, x⟩ = .ok ⟨[], .never⟩ := by
+  rw [queries_hide_expired, ha]; simp [hx, Allowance.default]
+
 /-! ## non-vacuity -/
 
 open CwPlus.Props.C07 (exState blk50 blk100)
@@ -1119,5 +1351,68 @@ def exOps : List (Block × Addr × Cw1Subkeys.Msg) :=
 example : (grun (ghost0 { cfg := ⟨["admin"], true⟩, allowances := [], permissions := [] }) exOps).spent "k" "ua" = 11
     ∧ (grun (ghost0 { cfg := ⟨["admin"], true⟩, allowances := [], permissions := [] }) exOps).granted "k" "ua" = 13
     ∧ held (grun (ghost0 { cfg := ⟨["admin"], true⟩, allowances := [], permissions := [] }) exOps).st "k" "ua" = 0 := by decide
+
+theorem exState_wf : WF exState := by
+  intro x a h
+  simp only [exState, AMap.get?] at h
+  split at h
+  · cases h; show List.Nodup _; decide
+  · cases h
+
+/-- liveness, non-vacuity: the hypotheses of `covered_spend_succeeds` hold of the running example (two bank sends,
+cumulatively the whole `ua` allowance), and the theorem then *produces* the successful outcome -/
+example : ∃ s', Cw1Subkeys.execute exState blk50 "sub"
+      (.execute [.bankSend "x" [("ua", 4)], .bankSend "y" [("ua", 6), ("ub", 1)]]) =
+        .ok (s', [.bankSend "x" [("ua", 4)], .bankSend "y" [("ua", 6), ("ub", 1)]]) ∧
+      (∀ d, held s' "sub" d + sent [.bankSend "x" [("ua", 4)], .bankSend "y" [("ua", 6), ("ub", 1)]] d = held exState "sub" d) ∧
+      (s'.allowances.get? "sub").map (·.expires) = some (.atHeight 100) :=
+  covered_spend_succeeds (a := ⟨[("ua", 10), ("ub", 5)], .atHeight 100⟩) exState_wf (by decide) (by decide) (by decide)
+    (by decide) (by decide)
+    (fun d => by
+      simp only [sent, sentCoins, msgCoins, held, bal, balOf, exState, AMap.get?, if_true]
+      by_cases h1 : "ua" = d
+      · subst h1; decide
+      · by_cases h2 : "ub" = d
+        · subst h2; decide
+        · simp [total, h1, h2])
+/-- `execute_ok_iff_sem` left to right on a failing call: one `ua` too much -/
+example : ¬ ∀ d, sent [.bankSend "x" [("ua", 4)], .bankSend "y" [("ua", 7)]] d ≤ held exState "sub" d := by
+  intro h
+  have := (execute_ok_iff_sem (s := exState) (blk := blk50) (snd := "sub")
+    (msgs := [.bankSend "x" [("ua", 4)], .bankSend "y" [("ua", 7)]]) exState_wf (by decide) (by decide)).mpr
+    ⟨by decide, fun _ => ⟨_, rfl, by decide⟩, h⟩
+  revert this; decide
+/-- a zero coin of an absent denomination is refused although no denomination is overdrawn: positivity cannot be
+dropped from `execute_ok_iff_sem` -/
+example : (Cw1Subkeys.execute exState blk50 "sub" (.execute [.bankSend "x" [("uc", 0)]])).isOk = false := by decide
+/-- `increase_ok_iff` / `decrease_ok_iff` right to left: the guarded calls do succeed -/
+example : (Cw1Subkeys.execute exState blk50 "admin" (.increaseAllowance ⟨true, "sub"⟩ ("ua", 3) none)).isOk = true :=
+  (increase_ok_iff exState blk50 "admin" _ _ _).mpr (by decide)
+example : (Cw1Subkeys.execute exState blk50 "admin" (.decreaseAllowance ⟨true, "sub"⟩ ("ub", 9) (some .never))).isOk = true :=
+  (decrease_ok_iff exState blk50 "admin" _ _ _).mpr ⟨by decide, by decide, by decide, _, rfl, by decide, by decide, 5, by decide⟩
+/-- a decrease of a denomination the allowance lacks, and one on an expired allowance, fail -/
+example : ∃ e, Cw1Subkeys.execute exState blk50 "admin" (.decreaseAllowance ⟨true, "sub"⟩ ("uc", 1) none) = .error e :=
+  decrease_fails (fun o ho => by cases ho; exact Or.inr (by decide))
+example : ∃ e, Cw1Subkeys.execute exState blk100 "admin" (.decreaseAllowance ⟨true, "sub"⟩ ("ua", 1) none) = .error e :=
+  decrease_fails (fun o ho => by cases ho; exact Or.inl (by decide))
+/-- the exact ledger on a run with an expiry: grant 10 (expires at 60), spend 4, restart after expiry with 3
+(6 forfeited), decrease by 2, spend 1: 5 + 0 + 2 + 6 = 13 -/
+def exOps2 : List (Block × Addr × Cw1Subkeys.Msg) :=
+  [(blk50, "admin", .increaseAllowance ⟨true, "k"⟩ ("ua", 10) (some (.atHeight 60))),
+   (blk50, "k", .execute [.bankSend "x" [("ua", 4)]]),
+   (blk100, "admin", .increaseAllowance ⟨true, "k"⟩ ("ua", 3) (some .never)),
+   (blk100, "admin", .decreaseAllowance ⟨true, "k"⟩ ("ua", 2) none),
+   (blk100, "k", .execute [.bankSend "x" [("ua", 1)]])]
+def exLedger : Ledger := lrun ⟨{ cfg := ⟨["admin"], true⟩, allowances := [], permissions := [] },
+  fun _ _ => 0, fun _ _ => 0, fun _ _ => 0, fun _ _ => 0⟩ exOps2
+example : exLedger.granted "k" "ua" = 13 ∧ exLedger.spent "k" "ua" = 5 ∧ held exLedger.st "k" "ua" = 0
+    ∧ exLedger.revoked "k" "ua" = 2 ∧ exLedger.forfeited "k" "ua" = 6 := by decide
+/-- `listing_hides_expired` at work: at height 100 the listing of the running example is empty -/
+example : ∀ p, p ∉ Cw1Subkeys.queryAllAllowances exState blk100 none none := by
+  intro p hp
+  obtain ⟨hm, hx⟩ := listing_hides_expired _ _ _ _ p hp
+  simp [exState] at hm
+  subst hm
+  revert hx; decide
 
 end CwPlus.Props.C08
